@@ -98,6 +98,9 @@ def _collision_scenes(seed):
     s2['custom'] = dict(s['custom'], spring_mass_scale=0.5,
                         spring_inertia_scale=0.5)
     out.append(s2)
+    s3 = dict(s)
+    s3['custom'] = dict(s['custom'], collide_scale=0.5)
+    out.append(s3)
   return out
 
 
